@@ -262,6 +262,19 @@ def chmapSet (keep : Bool) (h : H) (size : Nat) (data : Option Mem) : Res :=
     else
       { reads := [(0, szInt * k), (0, size)], ret := .exact 0, h' := sh }
 
+/-- case SFC_CALC_SIGNAL_MAX / SFC_CALC_NORM_SIGNAL_MAX behind the size guard: `*data = psf_calc_signal_max (…) ; return psf->error`.
+    psf_calc_signal_max refuses a handle that cannot seek (SFE_NOT_SEEKABLE) or cannot read (SFE_UNIMPLEMENTED) by recording the error
+    and returning 0.0 (which is stored in the block); since "fix: SFC_CALC_SIGNAL_MAX / SFC_CALC_NORM_SIGNAL_MAX returned 0 (success)
+    when the scan was refused" the recorded error is the return value, as for the _ALL_CHANNELS pair.  After a scan the error is 0 on
+    return (cleared on entry and by the nested SFC_SET_NORM_DOUBLE) unless the restoring seek failed: the model leaves `err` open.
+    `retZero = true` is the rule before that repair (KF-C09-CALC-SIGNAL-MAX-RET0): the case ended in `break`, i.e. `return 0`. -/
+def calcSignalMax (retZero : Bool) (h : H) : Res :=
+  if ¬ h.seekable then
+    { writes := [(0, szDouble)], ret := .exact (if retZero then 0 else eNotSeekable), err := some eNotSeekable, h' := some h }
+  else if ¬ canRead h then
+    { writes := [(0, szDouble)], ret := .exact (if retZero then 0 else eUnimplemented), err := some eUnimplemented, h' := some h }
+  else { writes := [(0, szDouble)], ret := .exact 0, h' := some h }
+
 /-! ## the switch -/
 
 /-- commands that only query information -/
@@ -415,8 +428,7 @@ def withHandle (h : H) (cmd : Int) (size : Nat) (data : Option Mem) : Res :=
   | .k1001 =>
     stringOut h.logLen size data sh (some 0) eBadParam
   | .k1040 =>
-    guardEq szDouble size data sh eBadParam (some eBadParam) fun _ =>
-      { writes := [(0, szDouble)], ret := .exact 0, h' := sh }
+    guardEq szDouble size data sh eBadParam (some eBadParam) fun _ => calcSignalMax false h
   | .k1042 =>
     guardEq (szDouble * h.channels) size data sh eBadParam (some eBadParam) fun _ =>
       if ¬ h.seekable then { ret := .exact eNotSeekable, err := some eNotSeekable, h' := sh }
